@@ -1,6 +1,6 @@
 """C19 ARM64 JIT output is equivalent to the interpreter."""
 import astq
-from rules import a64hsem, a64patch, a64sem, genreset, jit, jitcross
+from rules import a64hsem, a64patch, a64sem, genreset, jit, jitcross, rtpreserve
 
 LEVEL = 'other'
 TECHNIQUE = ('cross-target parse (clang --target=aarch64) of the back-end that this host never compiles + sibling agreement with the interpreter on resolved-AST feature vectors, known-bits and A64 logical-immediate decoding of emitted constants, max-path code-size bound against the assembled template, known-bits abstract execution of the immediate helpers over 529 immediate classes'
@@ -44,3 +44,5 @@ def run(ctx, R):
     a64hsem.rule_mem_hsem(ctx, R)
     a64hsem.rule_cbranch(ctx, R)
     a64hsem.rule_dsoff(ctx, R)
+    rtpreserve.rule_a64(ctx, R)
+    rtpreserve.rule_a64_rcplit(ctx, R)
